@@ -686,6 +686,7 @@ func init() {
 					us = append(us, c10SerialNamed("overlapping-keepalives", d, "queued-then-late", b))
 				}
 			}
+			us = append(us, c02BinaryPrice())
 			return us
 		},
 	})
